@@ -28,6 +28,29 @@ def gen_init(rng):
     return dict(self=None, penalties=[b, t])
 
 
+def gen_equiv(rng):
+    def scheme():
+        v = [0.0, 0.5, 1.0, 2.0, 3.0]
+        b3, b4 = sorted([rng.choice(v), rng.choice(v)])
+        t0, t3 = rng.choice(v), rng.choice(v)
+        return [[0.0, rng.choice(v[1:]), rng.choice(v), b3, b4, rng.choice(v)], [t0, t0, 0.0, t3, t3, rng.choice(v)]]
+    a = scheme()
+    mode = rng.random()
+    if mode < 0.4:
+        k = rng.choice([0.25, 0.5, 2.0, 4.0, 1.0])
+        b = [[x * k for x in vec] for vec in a]
+        if mode < 0.15:       # perturb one entry (possibly beyond `stop`, possibly in T only)
+            vv, kk = rng.randrange(2), rng.randrange(6)
+            b[vv][kk] = b[vv][kk] + 1.0
+            if vv == 1:
+                b[1][0] = b[1][1] = max(b[1][0], b[1][1])
+    else:
+        b = scheme()
+    K = rng.choice([0.25, 0.5, 1.0, 2.0, 4.0])
+    return {"self": None, "other": None, "stop": rng.choice([3, 6]), "K": K,
+            "self._penalty_vectors": a, "other.penalty_vectors": b}
+
+
 def register(reg):
     reg.contract(
         F + "__init__", props=["C19"],
@@ -49,3 +72,45 @@ def register(reg):
         gen=gen_init,
         notes="shape / type errors (non-list, wrong lengths, non-numbers) are outside the typed model: bounded tier",
     )
+
+    # ---- equivalence ------------------------------------------------------------------------------------------------
+    P1, P2 = "self._penalty_vectors", "other.penalty_vectors"
+    REL = ("((pen1[%(v)s][k] == 0 and pen2[%(v)s][k] == 0) or (pen1[%(v)s][k] != 0 and pen2[%(v)s][k] != 0 and "
+           "not isnan(coefficient) and pen1[%(v)s][k] == coefficient * pen2[%(v)s][k]))")
+    reg.contract(
+        F + "__is_equivalent_to_generic", props=["C19"],
+        params=dict(self=Obj, other=Obj, stop=Int), returns=Bool,
+        fields={P1: Arr(Real, 2), P2: Arr(Real, 2)},
+        ghost=dict(K=Real),
+        requires={
+            "shape": "len(%s) == 2 and len(%s[0]) == 6 and len(%s) == 2 and len(%s[0]) == 6" % (P1, P1, P2, P2),
+            "stop": "2 <= stop <= 6",
+            # both schemes are valid (constructor contract): non-negative penalties, B[1] > 0
+            "nonneg": "forall(lambda v, k: %s[v][k] >= 0 and %s[v][k] >= 0, 0, 2, 0, 6)" % (P1, P2),
+            "b1": "%s[0][1] > 0 and %s[0][1] > 0" % (P1, P2),
+        },
+        modifies=[],
+        ensures={
+            # equivalent <=> one scheme is a positive multiple of the other on BOTH vectors (entries 0..stop-1)
+            "sound": "implies(result, not isnan(coefficient) and coefficient > 0 and forall(lambda v, k: "
+                     "pen1[v][k] == coefficient * pen2[v][k], 0, 2, 0, stop))",
+            "complete": "implies(K > 0 and forall(lambda v, k: %s[v][k] == K * %s[v][k], 0, 2, 0, stop), result)" % (P1, P2),
+        },
+        loops={2: dict(inv={
+            "coef_pos": "implies(not isnan(coefficient), coefficient > 0)",
+            "prev_vec": "implies(id_vector == 1, forall(lambda k: " + REL % {"v": "0"} + ", 0, stop))",
+            "cur_vec": "forall(lambda k: " + REL % {"v": "id_vector"} + ", 0, i)",
+            "views": "forall(lambda v, k: pen1[v][k] == %s[v][k] and pen2[v][k] == %s[v][k], 0, 2, 0, 6)" % (P1, P2),
+            # the coefficient, once set, is the ratio of some already processed non-zero pair
+            "coef_origin": "implies(not isnan(coefficient), "
+                           "exists(lambda k: pen2[0][k] != 0 and pen1[0][k] == coefficient * pen2[0][k], 0, "
+                           "ite(id_vector == 0, i, stop)) or (id_vector == 1 and "
+                           "exists(lambda k: pen2[1][k] != 0 and pen1[1][k] == coefficient * pen2[1][k], 0, i)))",
+        })},
+        rt_only={"iff_prop": "result == (exists_ratio(%s, %s, stop))" % (P1, P2)},
+        gen=gen_equiv,
+    )
+    # run-time only: exact proportionality test with rationals (the penalties drawn by the generator are dyadic)
+    reg.spec("def exists_ratio(a, b, stop):\n"
+             "    return ratio_ok([a[v][k] for v in range(2) for k in range(stop)], [b[v][k] for v in range(2) for k in range(stop)])",
+             dict(a=Arr(Real, 2), b=Arr(Real, 2), stop=Int), Bool, opaque=True)
